@@ -385,5 +385,3 @@ Proof.
   - discriminate.
 Qed.
 End M.
-Check peg_within.
-Print Assumptions peg_within.
